@@ -1069,6 +1069,10 @@ def sig_replace_cases(rng, s):
         out.append({'params': [copy_p(p, up=False) for p in ps]})
         mixed = [copy_p(p, up=False) if i % 2 == 0 else p for i, p in enumerate(ps)]
         out.append({'params': mixed, 'ret': 12})
+        # any iterable is accepted for parameters, as by inspect.Signature
+        out.append({'params': list(ps), 'params_as': 'iter'})
+        out.append({'params': list(reversed(ps)), 'params_as': 'gen'})
+        out.append({'params': mixed, 'params_as': 'gen'})
     out.append({'params': [mkp('n1', 'PK', None, 11, ('P', 11), srcs=[102], deps={102: 0}, fn=102)] + [copy_p(p) for p in ps if p['kind'] in ('KO', 'VK')],
                 'ur': A(('P', 11)), 'sources': ({}, {})})
     return out
@@ -1089,9 +1093,15 @@ def run_sig_replace(s, args, reg):
         if args.get('sources_empty_dict'):
             src = {}
         kw['sources'] = src
+    plist = None
     if 'params' in args:
-        kw['parameters'] = [build_param(p, reg) for p in args['params']]
+        plist = [build_param(p, reg) for p in args['params']]
+        kw['parameters'] = plist
     base_kw = {k: v for k, v in kw.items() if k in ('return_annotation', 'parameters')}
+    if plist is not None and args.get('params_as') == 'iter':
+        kw['parameters'], base_kw['parameters'] = iter(plist), iter(plist)
+    elif plist is not None and args.get('params_as') == 'gen':
+        kw['parameters'], base_kw['parameters'] = (q for q in plist), (q for q in plist)
     plain = inspect.Signature(list(o.parameters.values()), return_annotation=o.return_annotation)
     try:
         want = plain.replace(**base_kw)
@@ -1133,7 +1143,7 @@ def run_sig_replace(s, args, reg):
     elif r.upgraded_return_annotation is not o.upgraded_return_annotation:
         bad.append(('C14:replace-upgraded-annotation', 'replace did not keep upgraded_return_annotation: %r -> %r' % (
             o.upgraded_return_annotation, r.upgraded_return_annotation)))
-    given = kw.get('parameters')
+    given = plist
     olds = list(o.parameters.values()) if given is None else given
     for old, new in zip(olds, r.parameters.values()):
         if isinstance(old, UP):
